@@ -7,6 +7,10 @@ import (
 
 // createue: {imsi, start, count, k, opc, op} -> supis/ranids of UEs start..start+count-1 and the
 // credentials / algorithms / advertised capability of the first one
+// the first UE of the previous createue call: its identity and credentials are read again after the next population
+// has been created (a UE context must not change because another one is created)
+var prevUE *tglib.RanUeContext
+
 func init() {
 	lineCmds["createue"] = func(in map[string]interface{}) map[string]interface{} {
 		imsi := str(in, "imsi")
@@ -23,7 +27,14 @@ func init() {
 			ranids = append(ranids, ue.RanUeNgapId)
 		}
 		out := map[string]interface{}{"supis": supis, "ranids": ranids}
+		if prevUE != nil {
+			out["prev_now"] = map[string]interface{}{"supi": prevUE.Supi, "ran": prevUE.RanUeNgapId,
+				"k":   prevUE.AuthenticationSubs.PermanentKey.PermanentKeyValue,
+				"opc": prevUE.AuthenticationSubs.Opc.OpcValue, "op": prevUE.AuthenticationSubs.Milenage.Op.OpValue,
+				"ea": prevUE.CipheringAlg, "ia": prevUE.IntegrityAlg}
+		}
 		if first != nil {
+			prevUE = first
 			cap := first.GetUESecurityCapability()
 			out["ea"] = first.CipheringAlg
 			out["ia"] = first.IntegrityAlg
